@@ -236,16 +236,16 @@ def base_plan(tier, seed, classes=('pess', 'opt', 'mcs'), opt_scripts=True, thre
             plan.append((cls, programs.cross2(cls, programs.COMMON_SCRIPTS), dict(pb=2, max_exec=800)))
             plan.append((cls, programs.cross2(cls, programs.OPT_SCRIPTS, programs.COMMON_SCRIPTS, tag='x2o'), dict(pb=2, max_exec=600)))
         else:
-            plan.append((cls, programs.cross2(cls, lib), dict(pb=2 if q else 3, max_exec=1200 if q else 60000)))
+            plan.append((cls, programs.cross2(cls, lib), dict(pb=2 if q else 3, max_exec=1200 if q else 30000)))
         if three:
             plan.append((cls, programs.cross3(cls, CONV + ('X',), MODES3, MODES3),
-                         dict(pb=1 if q else 2, max_exec=300 if q else 20000)))
+                         dict(pb=1 if q else 2, max_exec=300 if q else 10000)))
             plan.append((cls, programs.cross3(cls, ('X',), MODES3, MODES3, tag='x3x'),
-                         dict(pb=2, max_exec=1500 if q else 30000)))
+                         dict(pb=2, max_exec=1500 if q else 15000)))
             plan.append((cls, programs.four(cls, full=not q), dict(pb=1 if q else 2, max_exec=300 if q else 8000)))
             if cls == 'opt' and opt_scripts:
                 plan.append((cls, programs.cross3(cls, ('GTX', 'GTI', 'PRV', 'GVV'), ('X', 'DNG', 'XSV', 'XX'), ('S', 'SIX', 'X')),
-                             dict(pb=1 if q else 2, max_exec=300 if q else 20000)))
+                             dict(pb=1 if q else 2, max_exec=300 if q else 10000)))
         for fam, par in extra:
             pr = fam(cls)
             if pr:
@@ -268,8 +268,8 @@ MODES3 = ('S', 'SIX', 'X')
 @register('C01')
 def check_c01(prop, tier, seed):
     q = tier == 'quick'
-    plan = base_plan(tier, seed, extra=[(programs.twolocks, dict(pb=2)), (programs.twosec, dict(pb=2, max_exec=2000 if q else 30000))])
-    plan.append(('opt', programs.opt_basic() + programs.opt_prepare() + programs.opt_mix3(), dict(pb=2, max_exec=1000 if q else 30000)))
+    plan = base_plan(tier, seed, extra=[(programs.twolocks, dict(pb=2)), (programs.twosec, dict(pb=2, max_exec=2000 if q else 15000))])
+    plan.append(('opt', programs.opt_basic() + programs.opt_prepare() + programs.opt_mix3(), dict(pb=2, max_exec=1000 if q else 15000)))
     plan.append(('opt', programs.cross3('opt', ('PRV', 'GTS', 'GTX'), ('X', 'XX', 'DNG', 'XSV'), ('S', 'SIX', 'X'), tag='o3r'),
                  dict(mode='random', max_exec=80 if q else 1500)))
     plan.append(('opt', programs.opt_quiesce(), dict(pb=1 if q else 2, max_exec=150 if q else 3000)))
@@ -281,10 +281,10 @@ def check_c01(prop, tier, seed):
 @register('C02')
 def check_c02(prop, tier, seed):
     q = tier == 'quick'
-    plan = base_plan(tier, seed + 1, extra=[(programs.twosec, dict(pb=2, max_exec=2500 if q else 30000)),
+    plan = base_plan(tier, seed + 1, extra=[(programs.twosec, dict(pb=2, max_exec=2500 if q else 15000)),
                                             (programs.handover, dict(pb=1 if q else 2, max_exec=1500 if q else 10000)),
                                             (programs.twolocks, dict(pb=2))])
-    plan.append(('opt', programs.opt_basic() + programs.opt_prepare() + programs.opt_version(), dict(pb=2, max_exec=2000 if q else 30000)))
+    plan.append(('opt', programs.opt_basic() + programs.opt_prepare() + programs.opt_version(), dict(pb=2, max_exec=2000 if q else 15000)))
     plan.append(('opt', programs.opt_quiesce(), dict(pb=1 if q else 2, max_exec=150 if q else 3000)))
     res = lock_abs_check(prop, tier, seed, ['CkProgress'], plan)
     res['assumptions'] = LOCK_ASSUME + ['every generated client program releases every grant and acquires locks in a fixed order, '
@@ -296,9 +296,9 @@ def check_c02(prop, tier, seed):
 def check_c07(prop, tier, seed):
     q = tier == 'quick'
     plan = base_plan(tier, seed + 2, three=False,
-                     extra=[(programs.guards, dict(pb=2, max_exec=3000 if q else 30000)),
+                     extra=[(programs.guards, dict(pb=2, max_exec=3000 if q else 15000)),
                             (programs.handover, dict(pb=1 if q else 2, max_exec=1500 if q else 10000))])
-    plan.append(('opt', programs.opt_basic() + programs.opt_prepare() + programs.opt_version(), dict(pb=2, max_exec=2000 if q else 30000)))
+    plan.append(('opt', programs.opt_basic() + programs.opt_prepare() + programs.opt_version(), dict(pb=2, max_exec=2000 if q else 15000)))
     plan.append(('opt', programs.opt_quiesce(), dict(pb=1 if q else 2, max_exec=150 if q else 3000)))
     res = lock_abs_check(prop, tier, seed, ['CkGuards', 'CkProgress', 'CkCompat'], plan)
     res['assumptions'] = LOCK_ASSUME + ['a grant that is never released, or released twice, shows up as a guard boolean that '
@@ -313,8 +313,8 @@ def check_c10(prop, tier, seed):
     for cls in ('pess', 'opt', 'mcs'):
         lib = ALLOPT if cls == 'opt' else programs.COMMON_SCRIPTS
         conv = CONV + (('GTIUP',) if cls == 'opt' else ())
-        plan.append((cls, programs.cross2(cls, conv, lib, tag='cv2'), dict(pb=2 if q else 3, max_exec=4000 if q else 60000)))
-        plan.append((cls, programs.cross3(cls, conv, MODES3, MODES3, tag='cv3'), dict(pb=1 if q else 2, max_exec=800 if q else 20000)))
+        plan.append((cls, programs.cross2(cls, conv, lib, tag='cv2'), dict(pb=2 if q else 3, max_exec=4000 if q else 30000)))
+        plan.append((cls, programs.cross3(cls, conv, MODES3, MODES3, tag='cv3'), dict(pb=1 if q else 2, max_exec=800 if q else 10000)))
         plan.append((cls, programs.crowd(cls), dict(pb=1 if q else 2, max_exec=400 if q else 6000)))
         plan.append((cls, programs.quiesce(cls), dict(pb=1 if q else 2, max_exec=100 if q else 3000)))
         plan.append((cls, programs.cross3(cls, conv, MODES3, MODES3, tag='cr3'), dict(mode='random', max_exec=40 if q else 400)))
@@ -327,11 +327,11 @@ def check_c10(prop, tier, seed):
 
 def opt_plan(tier, seed):
     q = tier == 'quick'
-    return [('opt', programs.cross2('opt', ALLOPT + ('GTXX', 'XSV0')), dict(pb=2 if q else 3, max_exec=3000 if q else 60000)),
+    return [('opt', programs.cross2('opt', ALLOPT + ('GTXX', 'XSV0')), dict(pb=2 if q else 3, max_exec=3000 if q else 30000)),
             ('opt', programs.cross3('opt', ('GTX', 'GTI', 'GTS', 'PRV', 'GVV'), ('X', 'DNG', 'XSV', 'UPG', 'XX'), ('S', 'SIX', 'X', 'XSV')),
-             dict(pb=1 if q else 2, max_exec=600 if q else 20000)),
+             dict(pb=1 if q else 2, max_exec=600 if q else 10000)),
             ('opt', programs.opt_basic() + programs.opt_version() + programs.opt_prepare() + programs.opt_mix3(),
-             dict(pb=2 if q else 3, max_exec=3000 if q else 40000)),
+             dict(pb=2 if q else 3, max_exec=3000 if q else 20000)),
             ('opt', programs.opt_quiesce(), dict(pb=1 if q else 2, max_exec=150 if q else 3000))]
 
 
@@ -345,7 +345,7 @@ def check_c03(prop, tier, seed):
 @register('C09')
 def check_c09(prop, tier, seed):
     q = tier == 'quick'
-    plan = opt_plan(tier, seed) + [('opt', programs.guards('opt'), dict(pb=2, max_exec=2000 if q else 20000))]
+    plan = opt_plan(tier, seed) + [('opt', programs.guards('opt'), dict(pb=2, max_exec=2000 if q else 10000))]
     res = lock_abs_check(prop, tier, seed, ['CkVersion', 'CkProgress', 'CkCompat'], plan)
     res['assumptions'] = LOCK_ASSUME + ['versions are concrete 32-bit values (compared as 16-bit halves)',
                                         'a version that disturbs the mode bits shows up as a blocked final probe (CkProgress)']
@@ -355,16 +355,16 @@ def check_c09(prop, tier, seed):
 @register('C13')
 def check_c13(prop, tier, seed):
     q = tier == 'quick'
-    plan = [('opt', programs.cross2('opt', ('PRV',), ALLOPT, tag='pr2'), dict(pb=2 if q else 3, max_exec=6000 if q else 60000)),
+    plan = [('opt', programs.cross2('opt', ('PRV',), ALLOPT, tag='pr2'), dict(pb=2 if q else 3, max_exec=6000 if q else 30000)),
             ('opt', programs.cross3('opt', ('PRV',), ('X', 'DNG', 'XSV', 'UPG', 'DNUP', 'XX'), ('S', 'SIX', 'X', 'PRV')),
-             dict(pb=1 if q else 2, max_exec=800 if q else 20000)),
-            ('opt', programs.cross3('opt', ('PRV',), ('X', 'XX', 'DNG'), ('S', 'SIX', 'PRV'), tag='pr3b'), dict(pb=2, max_exec=2500 if q else 30000)),
+             dict(pb=1 if q else 2, max_exec=800 if q else 10000)),
+            ('opt', programs.cross3('opt', ('PRV',), ('X', 'XX', 'DNG'), ('S', 'SIX', 'PRV'), tag='pr3b'), dict(pb=2, max_exec=2500 if q else 15000)),
             ('opt', programs.cross3('opt', ('PRV',), ('X', 'XX', 'DNG', 'UPG'), ('S', 'SIX', 'X', 'PRV'), tag='pr3r'),
              dict(mode='random', max_exec=150 if q else 1500)),
             ('opt', programs.opt_quiesce(), dict(pb=1 if q else 2, max_exec=150 if q else 3000)),
             ('opt', [p for p in programs.opt_quiesce() if '_PRV-' in p.split()[1]], dict(pb=2, max_exec=1500 if q else 15000)),
             ('opt', [p.replace('_oq3_', '_oq3r_') for p in programs.opt_quiesce() if '_PRV-' in p.split()[1]], dict(mode='random', max_exec=400 if q else 4000)),
-            ('opt', programs.opt_prepare() + programs.opt_mix3(), dict(pb=2 if q else 3, max_exec=3000 if q else 40000))]
+            ('opt', programs.opt_prepare() + programs.opt_mix3(), dict(pb=2 if q else 3, max_exec=3000 if q else 20000))]
     res = lock_abs_check(prop, tier, seed, ['CkPrepare', 'CkOptimistic', 'CkGuards', 'CkProgress', 'CkCompat'], plan)
     res['assumptions'] = LOCK_ASSUME + ['the harness builds the library with CPP_UTILITY_SPINLOCK_RETRY_NUM=1, so PrepareRead makes '
                                         'two optimistic attempts before its locking fallback']
@@ -374,12 +374,12 @@ def check_c13(prop, tier, seed):
 @register('C11')
 def check_c11(prop, tier, seed):
     q = tier == 'quick'
-    plan = [('mcs', programs.cross2('mcs'), dict(pb=2 if q else 3, max_exec=3000 if q else 60000)),
-            ('mcs', programs.cross3('mcs', MODES3, MODES3, MODES3), dict(pb=2, max_exec=3000 if q else 30000)),
+    plan = [('mcs', programs.cross2('mcs'), dict(pb=2 if q else 3, max_exec=3000 if q else 30000)),
+            ('mcs', programs.cross3('mcs', MODES3, MODES3, MODES3), dict(pb=2, max_exec=3000 if q else 15000)),
             ('mcs', programs.cross3('mcs', MODES3, MODES3, MODES3, tag='r3m'), dict(mode='random', max_exec=400 if q else 4000)),
-            ('mcs', programs.cross3('mcs', CONV, MODES3, MODES3), dict(pb=1 if q else 2, max_exec=600 if q else 20000)),
+            ('mcs', programs.cross3('mcs', CONV, MODES3, MODES3), dict(pb=1 if q else 2, max_exec=600 if q else 10000)),
             ('mcs', programs.cross3('mcs', CONV, MODES3, MODES3, tag='r3c'), dict(mode='random', max_exec=40 if q else 400)),
-            ('mcs', programs.twosec('mcs'), dict(pb=2, max_exec=2500 if q else 30000)),
+            ('mcs', programs.twosec('mcs'), dict(pb=2, max_exec=2500 if q else 15000)),
             ('mcs', programs.four('mcs', full=not q), dict(pb=1 if q else 2, max_exec=500 if q else 8000)),
             ('mcs', programs.four('mcs', full=not q), dict(mode='random', max_exec=60 if q else 600)),
             ('mcs', programs.quiesce('mcs'), dict(pb=1 if q else 2, max_exec=100 if q else 3000)),
@@ -497,10 +497,10 @@ def check_c08(prop, tier, seed):
     plan = []
     for cls in ('pess', 'opt', 'mcs'):
         lib = ALLOPT if cls == 'opt' else programs.COMMON_SCRIPTS
-        plan.append((cls, programs.cross2(cls, lib), dict(pb=2 if q else 3, max_exec=1500 if q else 40000)))
+        plan.append((cls, programs.cross2(cls, lib), dict(pb=2 if q else 3, max_exec=1500 if q else 20000)))
         plan.append((cls, programs.cross3(cls, CONV + ('X',), MODES3, MODES3), dict(pb=1, max_exec=300 if q else 5000)))
     plan.append(('opt', programs.cross2('opt', ('GTS', 'GTI', 'GTX', 'PRV', 'GTIUP'), ('S', 'SIX', 'UPG', 'XSV0'), tag='rep'),
-                 dict(pb=3, max_exec=3000 if q else 40000)))
+                 dict(pb=3, max_exec=3000 if q else 20000)))
     return hb_trace_check(prop, tier, seed, plan)
 
 
@@ -547,11 +547,11 @@ def stream_check(prop, tier, seed, plan, proj, spec_name, cfg_name, describe, st
 @register('C12')
 def check_c12(prop, tier, seed):
     q = tier == 'quick'
-    plan = [('mcs', programs.cross2('mcs'), dict(pb=2 if q else 3, max_exec=3000 if q else 60000)),
-            ('mcs', programs.cross3('mcs', MODES3, MODES3, MODES3), dict(pb=2, max_exec=1500 if q else 30000)),
-            ('mcs', programs.cross3('mcs', CONV, MODES3, MODES3), dict(pb=1 if q else 2, max_exec=600 if q else 20000)),
+    plan = [('mcs', programs.cross2('mcs'), dict(pb=2 if q else 3, max_exec=3000 if q else 30000)),
+            ('mcs', programs.cross3('mcs', MODES3, MODES3, MODES3), dict(pb=2, max_exec=1500 if q else 15000)),
+            ('mcs', programs.cross3('mcs', CONV, MODES3, MODES3), dict(pb=1 if q else 2, max_exec=600 if q else 10000)),
             ('mcs', programs.twosec('mcs') + programs.twolocks('mcs') + programs.handover('mcs') + programs.guards('mcs'),
-             dict(pb=2, max_exec=2500 if q else 30000)),
+             dict(pb=2, max_exec=2500 if q else 15000)),
             ('mcs', programs.twolock_follow('mcs'), dict(pb=2, max_exec=300 if q else 4000)),
             ('mcs', programs.crowd('mcs'), dict(pb=1 if q else 2, max_exec=400 if q else 6000)),
             ('mcs', programs.quiesce('mcs'), dict(pb=1 if q else 2, max_exec=100 if q else 3000)),
@@ -895,19 +895,19 @@ def epoch_programs(tier, which, seed=0):
                  ep_prog('ep_pin_e', 3, ['G BAR:1:3 D', 'G BAR:1:3 D', 'F F BAR:1:3 F']),
                  # a guard that is moved (move construction + move assignment) keeps its pin
                  ep_prog('ep_pin_mv', 3, ['G MV CUR D', 'GL MV RL D', 'F F F'])]
-        plan.append((3, progs, dict(pb=2 if q else 3, max_exec=5000 if q else 60000)))
+        plan.append((3, progs, dict(pb=2 if q else 3, max_exec=5000 if q else 30000)))
         # ID reuse: two workers compete for the single worker slot of a capacity-2 manager
         progs = [ep_prog('ep_reuse_a', 2, ['G D', 'G CUR D', 'F F F'], hashes=[0, 0, 1]),
                  ep_prog('ep_reuse_b', 2, ['G D', 'G D', 'F F'], hashes=[1, 1, 1]),
                  ep_prog('ep_reuse_c', 2, ['F F F', 'G D', 'GL RL D'], hashes=[0, 1, 1])]
-        plan.append((2, progs, dict(pb=2 if q else 3, max_exec=6000 if q else 60000)))
+        plan.append((2, progs, dict(pb=2 if q else 3, max_exec=6000 if q else 30000)))
         plan.append((2, [ep_prog('ep_reuse_pin', 2, ['G D', 'BAR:1:2 G BAR:2:2 BAR:3:2 CUR D', 'F BAR:1:2 BAR:2:2 F F F BAR:3:2 F'], hashes=[0, 0, 1])],
                      dict(pb=1, max_exec=60 if q else 600)))
     if 'mono' in which:
         progs = [ep_prog('ep_mono_a', 3, ['CUR MIN G CUR D MIN CUR', 'G D', 'F F F || F || CUR MIN']),
                  ep_prog('ep_mono_b', 3, ['MIN CUR MIN CUR', 'CUR G D', 'F F']),
                  ep_prog('ep_mono_c', 3, ['G CUR GR CUR G GR', 'G D', 'F F F || F F || CUR MIN'])]
-        plan.append((3, progs, dict(pb=2 if q else 3, max_exec=5000 if q else 60000)))
+        plan.append((3, progs, dict(pb=2 if q else 3, max_exec=5000 if q else 30000)))
         plan.append((3, [ep_prog('ep_cross_a', 3, ['CUR G CUR D MIN', 'G D', 'FQ:254 F F F'])], dict(pb=1, max_exec=60 if q else 400)))
         # many quiescent forwards (every one is observed: min = cur - 1), far enough for retired list nodes to be replaced several times
         plan.append((3, [ep_prog('ep_long_quiet', 3, ['G D', 'F FQ:%d F F' % (1100 if q else 2600)])], dict(pb=0, max_exec=1)))
@@ -915,7 +915,7 @@ def epoch_programs(tier, which, seed=0):
         # stays until that guard is destroyed; once everything is destroyed (threads still alive) a forward is quiescent
         progs = [ep_prog('ep_hand_a', 3, ['G GIVE:1 BAR:8:3 BAR:9:3', 'G TAKE:1 CUR D BAR:8:3 BAR:9:3', 'F BAR:8:3 F F BAR:9:3']),
                  ep_prog('ep_hand_b', 3, ['G GIVE:1 BAR:8:3 BAR:9:3', 'TAKE:1 MV D BAR:8:3 BAR:9:3', 'F F BAR:8:3 F F BAR:9:3'])]
-        plan.append((3, progs, dict(pb=2 if q else 3, max_exec=1500 if q else 20000)))
+        plan.append((3, progs, dict(pb=2 if q else 3, max_exec=1500 if q else 10000)))
     if 'rand' in which:
         rp = conc_epoch_programs(10 if q else 80, seed)
         for cap in (2, 3):
@@ -926,7 +926,7 @@ def epoch_programs(tier, which, seed=0):
     if 'list' in which:
         progs = [ep_prog('ep_list_a', 3, ['GL RL D GL RL D', 'G D', 'F F F']),
                  ep_prog('ep_list_b', 3, ['GL RL RL D', 'GL RL D', 'F F'])]
-        plan.append((3, progs, dict(pb=2 if q else 3, max_exec=5000 if q else 60000)))
+        plan.append((3, progs, dict(pb=2 if q else 3, max_exec=5000 if q else 30000)))
         # a worker stalled at any of its steps while the coordinator creates and retires 256-epoch list nodes
         # (the oldest list node is never retired, so the stalled epoch must lie in a younger node: forward past 512 first)
         plan.append((3, [ep_prog('ep_stall_a', 3, ['BAR:1:2 GL RL D', 'FQ:270 BAR:1:2 FQ:520 F']),
